@@ -1,0 +1,55 @@
+//go:build verif
+
+package object_patch
+
+import (
+	sdkpkg "github.com/deckhouse/module-sdk/pkg"
+)
+
+// VerifOpInfo is a read-only view of a parsed operation for the verification harness (C13).
+type VerifOpInfo struct {
+	Type string // "create" | "delete" | "patch" | "nil" | "unknown"
+
+	// create
+	Object         any
+	IgnoreIfExists bool
+	UpdateIfExists bool
+
+	// delete / patch coordinates
+	ApiVersion  string
+	Kind        string
+	Namespace   string
+	Name        string
+	Subresource string
+
+	// delete
+	Propagation string
+
+	// patch
+	PatchType           string
+	Patch               any
+	HasFilter           bool
+	IgnoreMissingObject bool
+	IgnoreHookError     bool
+}
+
+// VerifDescribeOperation exposes the unexported fields of an operation built by NewFromOperationSpec.
+func VerifDescribeOperation(op sdkpkg.PatchCollectorOperation) VerifOpInfo {
+	if op == nil {
+		return VerifOpInfo{Type: "nil"}
+	}
+	switch v := op.(type) {
+	case *createOperation:
+		return VerifOpInfo{Type: "create", Object: v.object, IgnoreIfExists: v.ignoreIfExists,
+			UpdateIfExists: v.updateIfExists, Subresource: v.subresource}
+	case *deleteOperation:
+		return VerifOpInfo{Type: "delete", ApiVersion: v.apiVersion, Kind: v.kind, Namespace: v.namespace,
+			Name: v.name, Subresource: v.subresource, Propagation: string(v.deletionPropagation)}
+	case *patchOperation:
+		return VerifOpInfo{Type: "patch", ApiVersion: v.apiVersion, Kind: v.kind, Namespace: v.namespace,
+			Name: v.name, Subresource: v.subresource, PatchType: string(v.patchType), Patch: v.patch,
+			HasFilter: v.filterFunc != nil, IgnoreMissingObject: v.ignoreMissingObject,
+			IgnoreHookError: v.ignoreHookError}
+	}
+	return VerifOpInfo{Type: "unknown"}
+}
